@@ -143,18 +143,19 @@ impl OpenOptions {
     pub fn open<P: AsRef<Path>>(self, path: P) -> Result<DB> {
         let path: &Path = path.as_ref();
         vpoint!("open:enter");
-        let file = if !path.exists() {
-            init_file(
-                path,
-                self.pagesize,
-                self.num_pages,
-                self.flags.direct_writes,
-            )?
-        } else {
-            vpoint!("open:existing");
-            open_file(path, false, self.flags.direct_writes)?
-        };
+        vpoint!("open:existing");
+        // Open the file, creating it if needed, and take the lock before looking at it.
+        // Only the holder of the lock may decide that the file is new and initialize it:
+        // otherwise two openers of a missing file race (the loser got `AlreadyExists`, or
+        // locked and mapped a file that the winner had not finished writing yet).
+        let mut file = open_file(path, true, self.flags.direct_writes)?;
         vpoint!("open:have_file");
+        vpoint!("open:before_lock");
+        file.lock_exclusive()?;
+        vpoint!("open:locked");
+        if file.metadata()?.len() == 0 {
+            init_file(&mut file, self.pagesize, self.num_pages)?;
+        }
 
         let db = DBInner::open(file, self.pagesize, self.flags)?;
         vpoint!("open:done");
@@ -253,9 +254,7 @@ pub(crate) struct DBInner {
 
 impl DBInner {
     pub(crate) fn open(file: File, pagesize: u64, flags: DBFlags) -> Result<DBInner> {
-        vpoint!("open:before_lock");
         file.lock_exclusive()?;
-        vpoint!("open:locked");
         let mmap = mmap(&file, flags.mmap_populate)?;
         vpoint!("open:mapped", len = mmap.len());
         let mmap = Mutex::new(Arc::new(mmap));
@@ -372,10 +371,8 @@ impl DBInner {
     }
 }
 
-fn init_file(path: &Path, pagesize: u64, num_pages: usize, direct_write: bool) -> Result<File> {
+fn init_file(file: &mut File, pagesize: u64, num_pages: usize) -> Result<()> {
     vpoint!("init:enter");
-    let mut file = open_file(path, true, direct_write)?;
-    vpoint!("init:created");
     file.allocate(pagesize * (num_pages as u64))?;
     vpoint!("init:allocated");
     let mut buf = vec![0; (pagesize * 4) as usize];
@@ -418,7 +415,7 @@ fn init_file(path: &Path, pagesize: u64, num_pages: usize, direct_write: bool) -
     file.flush()?;
     file.sync_all()?;
     vpoint!("init:synced");
-    Ok(file)
+    Ok(())
 }
 
 #[cfg(test)]
@@ -516,7 +513,7 @@ fn open_file<P: AsRef<Path>>(path: P, create: bool, direct_write: bool) -> Resul
     let mut open_options = FileOpenOptions::new();
     open_options.write(true).read(true);
     if create {
-        open_options.create_new(true);
+        open_options.create(true);
     }
     if direct_write {
         open_options.custom_flags(O_DIRECT);
@@ -529,7 +526,7 @@ fn open_file<P: AsRef<Path>>(path: P, create: bool, direct_write: bool) -> Resul
     let mut open_options = FileOpenOptions::new();
     open_options.write(true).read(true);
     if create {
-        open_options.create_new(true);
+        open_options.create(true);
     }
     Ok(open_options.open(path)?)
 }
